@@ -288,3 +288,279 @@ theorem parseShards_ok (m : Msg) (d : Bytes) (tls : Bool) : IsOk (parseShards m 
   foldRes_ok _ (shardStep_ok d tls) _ _
 
 end Rv.ClusterParse
+
+namespace Rv.ClusterParse
+open Rv Rv.Topology
+
+/-! ### which entries end up where (parseSlots) -/
+
+/-- one step of parseSlots as a pure function -/
+def slotsNext (d : Bytes) (gs : Groups) (v : Msg) : Groups :=
+  match entryMaster d v with
+  | none => gs
+  | some a =>
+    match gget a gs with
+    | some g => gset a { g with slots := g.slots ++ [entryRange v] } gs
+    | none =>
+      match slotNodes d (v.arr.drop 2) with
+      | .ok ns => gset a { nodes := ns, slots := [entryRange v] } gs
+      | _ => gs
+
+theorem parseSlots_eq_foldl (m : Msg) (d : Bytes) : parseSlots m d = .ok (m.arr.foldl (slotsNext d) []) := by
+  unfold parseSlots
+  generalize ([] : Groups) = acc
+  induction m.arr generalizing acc with
+  | nil => rfl
+  | cons v rest ih =>
+    unfold foldRes
+    rw [slotsStep_eq]
+    exact ih _
+
+theorem slotNodes_head (d : Bytes) (v : Msg) (a : Bytes) (h : entryMaster d v = some a) :
+    ∃ ns, slotNodes d (v.arr.drop 2) = .ok (a :: ns) := by
+  unfold entryMaster at h
+  by_cases hlen : v.arr.length < 3
+  · simp [hlen] at h
+  · rw [dif_neg hlen] at h
+    simp only at h
+    by_cases hm : (v.arr[2]'(by omega)).arr.length < 2
+    · simp [hm] at h
+    · rw [dif_neg hm] at h
+      have hd : v.arr.drop 2 = v.arr[2]'(by omega) :: v.arr.drop 3 := by
+        rw [List.drop_eq_getElem_cons (by omega)]
+      rw [hd]
+      unfold slotNodes
+      simp only
+      rw [if_neg hm]
+      have m0 : 0 < (v.arr[2]'(by omega)).arr.length := by omega
+      have m1 : 1 < (v.arr[2]'(by omega)).arr.length := by omega
+      rw [idx_ok m0, idx_ok m1]
+      obtain ⟨ns, hns⟩ := slotNodes_ok d (v.arr.drop 3)
+      simp only [hns]
+      by_cases ha : parseEndpoint d ((v.arr[2]'(by omega)).arr[0]).str ((v.arr[2]'(by omega)).arr[1]).int = []
+      · simp [ha] at h
+      · simp only [ha, if_false] at h
+        cases h
+        exact ⟨ns, by simp [ha]⟩
+
+/-- every group starts with the node it is keyed by (`g.nodes[0]` is the master) -/
+def HeadOK (gs : Groups) : Prop := ∀ a g, gget a gs = some g → g.nodes.head? = some a
+
+theorem slotsNext_headOK (d : Bytes) (gs : Groups) (v : Msg) (h : HeadOK gs) : HeadOK (slotsNext d gs v) := by
+  unfold slotsNext
+  cases hm : entryMaster d v with
+  | none => exact h
+  | some a =>
+    simp only
+    cases hg : gget a gs with
+    | some g =>
+      intro a' g' hg'
+      rw [gget_gset] at hg'
+      by_cases e : a = a'
+      · subst e; simp at hg'; subst hg'; exact h a g hg
+      · rw [if_neg e] at hg'; exact h a' g' hg'
+    | none =>
+      obtain ⟨ns, hns⟩ := slotNodes_head d v a hm
+      simp only [hns]
+      intro a' g' hg'
+      rw [gget_gset] at hg'
+      by_cases e : a = a'
+      · subst e; simp at hg'; subst hg'; rfl
+      · rw [if_neg e] at hg'; exact h a' g' hg'
+
+def Listed (a : Bytes) (r : Int × Int) (gs : Groups) : Prop := ∃ g, gget a gs = some g ∧ r ∈ g.slots
+
+theorem slotsNext_keeps (d : Bytes) (gs : Groups) (v : Msg) (a : Bytes) (r : Int × Int) (h : Listed a r gs) :
+    Listed a r (slotsNext d gs v) := by
+  obtain ⟨g, hg, hr⟩ := h
+  unfold slotsNext
+  cases hm : entryMaster d v with
+  | none => exact ⟨g, hg, hr⟩
+  | some k =>
+    simp only
+    by_cases e : k = a
+    · subst e
+      rw [hg]
+      exact ⟨{ g with slots := g.slots ++ [entryRange v] }, by rw [gget_gset, if_pos rfl], by simp [hr]⟩
+    · cases hk : gget k gs with
+      | some g' => exact ⟨g, by rw [gget_gset, if_neg e]; exact hg, hr⟩
+      | none =>
+        simp only
+        split
+        · exact ⟨g, by rw [gget_gset, if_neg e]; exact hg, hr⟩
+        · exact ⟨g, hg, hr⟩
+
+theorem slotsNext_lists (d : Bytes) (gs : Groups) (v : Msg) (a : Bytes) (hm : entryMaster d v = some a) :
+    Listed a (entryRange v) (slotsNext d gs v) := by
+  unfold slotsNext
+  rw [hm]
+  simp only
+  cases hg : gget a gs with
+  | some g => exact ⟨{ g with slots := g.slots ++ [entryRange v] }, by rw [gget_gset, if_pos rfl], by simp⟩
+  | none =>
+    obtain ⟨ns, hns⟩ := slotNodes_head d v a hm
+    simp only [hns]
+    exact ⟨{ nodes := a :: ns, slots := [entryRange v] }, by rw [gget_gset, if_pos rfl], by simp⟩
+
+theorem foldl_keeps (d : Bytes) (a : Bytes) (r : Int × Int) : ∀ (xs : List Msg) (gs : Groups),
+    Listed a r gs → Listed a r (xs.foldl (slotsNext d) gs) := by
+  intro xs
+  induction xs with
+  | nil => intro gs h; exact h
+  | cons x rest ih => intro gs h; exact ih _ (slotsNext_keeps d gs x a r h)
+
+theorem foldl_lists (d : Bytes) (a : Bytes) (v : Msg) (hm : entryMaster d v = some a) : ∀ (xs : List Msg) (gs : Groups),
+    v ∈ xs → Listed a (entryRange v) (xs.foldl (slotsNext d) gs) := by
+  intro xs
+  induction xs with
+  | nil => intro gs h; cases h
+  | cons x rest ih =>
+    intro gs h
+    rcases List.mem_cons.mp h with h | h
+    · subst h
+      exact foldl_keeps d a _ rest _ (slotsNext_lists d gs v a hm)
+    · exact ih _ h
+
+theorem foldl_headOK (d : Bytes) : ∀ (xs : List Msg) (gs : Groups), HeadOK gs → HeadOK (xs.foldl (slotsNext d) gs) := by
+  intro xs
+  induction xs with
+  | nil => intro gs h; exact h
+  | cons x rest ih => intro gs h; exact ih _ (slotsNext_headOK d gs x h)
+
+/-- keys of the result come from usable entries only -/
+def KeysFrom (d : Bytes) (src : List Msg) (gs : Groups) : Prop :=
+  ∀ a g, gget a gs = some g → a ≠ [] ∧ ∃ v ∈ src, entryMaster d v = some a
+
+theorem entryMaster_ne_nil (d : Bytes) (v : Msg) (a : Bytes) (h : entryMaster d v = some a) : a ≠ [] := by
+  unfold entryMaster at h
+  split at h
+  · cases h
+  · simp only at h
+    split at h
+    · cases h
+    · split at h
+      · cases h
+      · rename_i hne; cases h; exact hne
+
+theorem slotsNext_keysFrom (d : Bytes) (src : List Msg) (gs : Groups) (v : Msg) (hv : v ∈ src)
+    (h : KeysFrom d src gs) : KeysFrom d src (slotsNext d gs v) := by
+  unfold slotsNext
+  cases hm : entryMaster d v with
+  | none => exact h
+  | some k =>
+    simp only
+    have hk : k ≠ [] ∧ ∃ v ∈ src, entryMaster d v = some k := ⟨entryMaster_ne_nil d v k hm, v, hv, hm⟩
+    have key : ∀ g0, KeysFrom d src (gset k g0 gs) := by
+      intro g0 a g hg
+      rw [gget_gset] at hg
+      by_cases e : k = a
+      · subst e; exact hk
+      · rw [if_neg e] at hg; exact h a g hg
+    cases hg : gget k gs with
+    | some g => exact key _
+    | none =>
+      simp only
+      split
+      · exact key _
+      · exact h
+
+theorem foldl_keysFrom (d : Bytes) (src : List Msg) : ∀ (xs : List Msg) (gs : Groups), (∀ v ∈ xs, v ∈ src) →
+    KeysFrom d src gs → KeysFrom d src (xs.foldl (slotsNext d) gs) := by
+  intro xs
+  induction xs with
+  | nil => intro gs _ h; exact h
+  | cons x rest ih =>
+    intro gs hs h
+    exact ih _ (fun v hv => hs v (List.mem_cons_of_mem _ hv))
+      (slotsNext_keysFrom d src gs x (hs x (List.mem_cons_self ..)) h)
+
+/-! ### which shards end up where (parseShards) -/
+
+def shardsNext (d : Bytes) (tls : Bool) (gs : Groups) (v : Msg) : Groups :=
+  match shardGroup d tls v with | some (k, g) => gset k g gs | none => gs
+
+theorem parseShards_eq_foldl (m : Msg) (d : Bytes) (tls : Bool) :
+    parseShards m d tls = .ok (m.arr.foldl (shardsNext d tls) []) := by
+  unfold parseShards
+  generalize ([] : Groups) = acc
+  induction m.arr generalizing acc with
+  | nil => rfl
+  | cons v rest ih =>
+    unfold foldRes
+    rw [shardStep_eq]
+    exact ih _
+
+/-- every group of the result is exactly what one shard of the reply contributes -/
+def FromShard (d : Bytes) (tls : Bool) (src : List Msg) (gs : Groups) : Prop :=
+  ∀ k g, gget k gs = some g → ∃ v ∈ src, shardGroup d tls v = some (k, g)
+
+theorem foldl_fromShard (d : Bytes) (tls : Bool) (src : List Msg) : ∀ (xs : List Msg) (gs : Groups),
+    (∀ v ∈ xs, v ∈ src) → FromShard d tls src gs → FromShard d tls src (xs.foldl (shardsNext d tls) gs) := by
+  intro xs
+  induction xs with
+  | nil => intro gs _ h; exact h
+  | cons x rest ih =>
+    intro gs hs h
+    apply ih _ (fun v hv => hs v (List.mem_cons_of_mem _ hv))
+    unfold shardsNext
+    cases hx : shardGroup d tls x with
+    | none => exact h
+    | some kg =>
+      obtain ⟨k, g⟩ := kg
+      intro k' g' hg'
+      simp only at hg'
+      rw [gget_gset] at hg'
+      by_cases e : k = k'
+      · subst e; simp at hg'; subst hg'; exact ⟨x, hs x (List.mem_cons_self ..), hx⟩
+      · rw [if_neg e] at hg'; exact h k' g' hg'
+
+/-- a shard's group survives unless a later shard announces the same master -/
+theorem foldl_shard_last_wins (d : Bytes) (tls : Bool) (k : Bytes) (g : Group) : ∀ (post : List Msg) (gs : Groups),
+    gget k gs = some g → (∀ v ∈ post, ∀ g', shardGroup d tls v ≠ some (k, g')) →
+    gget k (post.foldl (shardsNext d tls) gs) = some g := by
+  intro post
+  induction post with
+  | nil => intro gs h _; exact h
+  | cons x rest ih =>
+    intro gs h hno
+    apply ih _ _ (fun v hv => hno v (List.mem_cons_of_mem _ hv))
+    unfold shardsNext
+    cases hx : shardGroup d tls x with
+    | none => exact h
+    | some kg =>
+      obtain ⟨k', g'⟩ := kg
+      simp only
+      rw [gget_gset]
+      by_cases e : k' = k
+      · subst e; exact absurd hx (hno x (List.mem_cons_self ..) g')
+      · rw [if_neg e]; exact h
+
+/-- shape of what one shard contributes: keyed by its first node, no node without an address -/
+theorem shardGroup_shape (d : Bytes) (tls : Bool) (v : Msg) (k : Bytes) (g : Group)
+    (h : shardGroup d tls v = some (k, g)) : g.nodes.head? = some k ∧ [] ∉ g.nodes := by
+  unfold shardGroup at h
+  obtain ⟨shard, hs⟩ := asMapOrNil_ok v
+  rw [hs] at h
+  simp only at h
+  obtain ⟨ss, hss⟩ := slotPairs_ok (mget kSlots shard).arr ((mget kSlots shard).arr.length / 2) 0 (by omega)
+  obtain ⟨st', hf, hi⟩ := foldNodes_inv d tls (mget kNodes shard).arr ([], none)
+    ⟨(by intro k hk; cases hk), (by simp)⟩
+  rw [hss, hf] at h
+  obtain ⟨ns, m⟩ := st'
+  cases m with
+  | none => simp at h
+  | some m =>
+    simp only at h
+    obtain ⟨ns', hsw, _, hmem⟩ := swap0_ok ns m (hi.1 m rfl)
+    rw [hsw] at h
+    simp only at h
+    cases hh : ns'.head? with
+    | none => rw [hh] at h; simp at h
+    | some a =>
+      rw [hh] at h
+      simp at h
+      obtain ⟨h1, h2⟩ := h
+      subst h1; subst h2
+      exact ⟨hh, fun hn => hi.2 (hmem _ hn)⟩
+
+end Rv.ClusterParse
